@@ -8,9 +8,35 @@ type vFrame struct {
 	masked                bool
 	key                   [4]byte
 	payload               []byte // unmasked
+	// hugeLen: the header declares a 64-bit payload length with the top bit set (no payload follows): a violation
+	hugeLen bool
 }
 
 func vEncodeFrame(f vFrame) []byte {
+	if f.hugeLen {
+		b0 := f.opcode & 0x0f
+		if f.fin {
+			b0 |= 0x80
+		}
+		if f.rsv1 {
+			b0 |= 0x40
+		}
+		if f.rsv2 {
+			b0 |= 0x20
+		}
+		if f.rsv3 {
+			b0 |= 0x10
+		}
+		b1 := uint8(127)
+		if f.masked {
+			b1 |= 0x80
+		}
+		out := []byte{b0, b1, 0x80, 0, 0, 0, 0, 0, 0, 7}
+		if f.masked {
+			out = append(out, f.key[:]...)
+		}
+		return out
+	}
 	h := vRefHeader{fin: f.fin, rsv1: f.rsv1, rsv2: f.rsv2, rsv3: f.rsv3, opcode: f.opcode, masked: f.masked, length: uint64(len(f.payload)), key: f.key}
 	out := vRefEncodeHeader(h)
 	for i, b := range f.payload {
@@ -53,7 +79,7 @@ func vRefReceive(frames []vFrame, client bool, deflate bool) vExpect {
 			e.partial = cur
 			return e
 		}
-		if f.rsv2 || f.rsv3 {
+		if f.rsv2 || f.rsv3 || f.hugeLen {
 			return fail()
 		}
 		if f.rsv1 {
